@@ -84,9 +84,13 @@ def tok_class(kind, text):
     return kind
 
 
-def compare(src, res, fam):
+def compare(src, res, fam, via=None):
+    """via = None: the lexer object is driven directly; via = (name, fn): fn(src) returns the token list picotool
+    reports for the source when it arrives through that path (a real .p8 / .p8.png file); signatures get the path name."""
     res.evaluations += 1
     case = {'src': src}
+    if via is not None:
+        case['via'] = via[0]
     try:
         ref = reflex.lex(src)
     except reflex.Reject:
@@ -94,9 +98,20 @@ def compare(src, res, fam):
         return
     res.count('accepted_by_reference')
     if len(ref) >= 2:
-        res.nontriv(src)
+        res.nontriv((src, via[0]) if via else src)
+    if via is not None:
+        r2 = ShardResult()
+        _compare_tokens(src, ref, r2, fam, case, via[1])
+        for sig, v in r2.violations.items():
+            res.violations.setdefault(sig + '|via=' + via[0], (v[0] + ' [source loaded through %s]' % via[0], v[1], v[2]))
+        res.outcomes |= r2.outcomes
+        return
+    _compare_tokens(src, ref, res, fam, case, None)
+
+
+def _compare_tokens(src, ref, res, fam, case, lexfn):
     try:
-        pt = pt_lex([src])
+        pt = pt_lex([src]) if lexfn is None else lexfn(src)
     except Exception as e:
         first = ref[0]
         res.violation('C07|lexer-raise|%s|near:%s' % (type(e).__name__, near_class(src, e, ref)),
@@ -154,6 +169,8 @@ def compare(src, res, fam):
         res.violation('C07|count|%s' % fam, '%r: %d tokens, grammar says %d' % (src, len(ad), len(ref)), case)
         return
     res.outcome(tuple(r.kind for r in ref[:6]))
+    if lexfn is not None:
+        return
     # chunk invariance: split after every LF
     if b'\n' in src[:-1]:
         parts = src.split(b'\n')
@@ -342,6 +359,182 @@ def number_literals(tier):
     return out
 
 
+
+# ---------------------------------------------------------------- the same sources through real cart files and the CLI
+P8_HEAD = b'pico-8 cartridge // http://www.pico-8.com\nversion %d\n__lua__\n'
+
+
+def _cart_ok(src):
+    """Sources a .p8 file can hold verbatim: end in LF, no NUL, no line that reads as a section header."""
+    import re
+    return (src.endswith(b'\n') and b'\x00' not in src and not re.search(br'(^|\n)__\w+__\n', src)
+            and not re.search(br'(^|\n)\s*#include\s', src))
+
+
+def write_p8(path, src):
+    from pico8.lua import lua
+    with open(path, 'wb') as fh:
+        fh.write(P8_HEAD % core.lua_version(src))
+        fh.write(lua.p8scii_to_unicode(src).encode('utf-8'))
+        fh.write(b'__gfx__\n' + b'0' * 128 + b'\n')
+
+
+def write_png(path, src):
+    from lib import refcodec as rc
+    mem = bytearray(0x8001)
+    mem[0x4300:0x4300 + len(src)] = src
+    mem[0x8000] = core.lua_version(src)
+    rows = [bytes(160 * 4)] * 205
+    with open(path, 'wb') as fh:
+        fh.write(rc.png_encode_rgba(160, 205, rc.stego_pack(bytes(mem), 160, 205, rows)))
+
+
+def expected_listtokens(src, ref):
+    """What `p8tool listtokens` prints for the source, derived from the reference tokens: '<text>' for blanks and
+    comments, a line break per newline token, '<index:value>' for everything else (index counts those only)."""
+    out = []
+    pos = 0
+    i = 0
+    while i < len(ref):
+        t = ref[i]
+        if t.kind == 'newline':
+            out.append('\n')
+        elif t.kind in ('space', 'comment'):
+            out.append('<{}>'.format(t.text))
+        else:
+            if t.kind == 'symbol' and t.text == b'::':
+                j = i + 1
+                while not (ref[j].kind == 'symbol' and ref[j].text == b'::'):
+                    j += 1
+                val = src[t.start:ref[j].end]
+                i = j
+            elif t.kind == 'number':
+                val = to_float(t.value)
+            elif t.kind == 'string':
+                val = t.value if t.level is None else t.text[t.level + 2:-(t.level + 2)]
+            else:
+                val = t.text
+            out.append('<{}:{}>'.format(pos, val))
+            pos += 1
+        i += 1
+    out.append('\n')
+    return ''.join(out)
+
+
+def cart_sources(kind, tier, part):
+    """Sources for the cart-file paths (a cart load also parses, so they are programs): for .p8 the witness program of
+    every grammar-adjacent terminal pair in its default and its tightest layout, plus the keyword / multi-line /
+    escape forms above that are whole programs; for .p8.png (slow decoder) the multi-line forms and one sixteenth of
+    the witnesses. Returned per part (of CART_PARTS)."""
+    from props import c08
+    from lib import luagen as L
+    out = []
+    if kind == 'p8' or part == 0:
+        for prog in c08.programs(tier, 'pairs', part, CART_PARTS):
+            if isinstance(prog, tuple):
+                continue
+            out.append(L.assemble(prog, {}))
+            out.append(L.tight_layout(prog)[0])
+    forms = multiline_forms() + (keyword_embeddings() + escapes_forms() if kind == 'p8' else [])
+    out += forms[part::CART_PARTS]
+    seen = set()
+    res = []
+    lua = __import__('pico8.lua.lua', fromlist=['lua'])
+    for s_ in out:
+        s_ = s_ if s_.endswith(b'\n') else s_ + b'\n'
+        if s_ in seen or not _cart_ok(s_):
+            continue
+        seen.add(s_)
+        if kind == 'png' and b'\r' in s_:
+            continue        # the .p8.png reader turns CR into a blank (its documented normalisation, C04)
+        try:
+            reflex.lex(s_)
+        except reflex.Reject:
+            continue
+        try:
+            # differential domain: texts the library accepts as a program when handed over directly
+            lua.Lua.from_lines([s_], version=core.lua_version(s_))
+        except Exception:
+            continue
+        res.append(s_)
+    return res
+
+
+CART_PARTS = 16
+
+
+def check_cart_paths(kind, tier, part, res):
+    import io
+    import os
+    import tempfile
+    from pico8 import tool, util
+    from pico8.game import file as p8file
+    srcs = cart_sources(kind, tier, part)
+    d = tempfile.mkdtemp(prefix='c07cart_')
+    ext = '.p8' if kind == 'p8' else '.p8.png'
+    paths = []
+    for i, src in enumerate(srcs):
+        pth = os.path.join(d, 'c%05d%s' % (i, ext))
+        (write_p8 if kind == 'p8' else write_png)(pth, src)
+        paths.append(pth)
+
+        def load(src_, _p=pth):
+            toks = p8file.from_file(_p).lua.tokens
+            if kind == 'png' and toks and toks[-1]._data == b'\n' and \
+                    len(reflex.adapt_picotool(toks)) == len(reflex.lex(src_)) + 1:
+                toks = toks[:-1]     # the .p8.png reader may supply one final newline (its normalisation, C04)
+            return toks
+        compare(src, res, 'cart', via=(kind + '-file', load))
+        res.count('cart_file_loads')
+    # `p8tool listtokens` on batches of those files
+    old_stream, old_verb = util._write_stream, util._verbosity
+    try:
+        bsize = 40 if kind == 'p8' else 1
+        for lo in range(0, len(paths), bsize):
+            batch = paths[lo:lo + bsize]
+            buf = io.StringIO()
+            util._write_stream = buf
+            util.set_verbosity(util.VERBOSITY_NORMAL)
+            try:
+                rcode = tool.main(['listtokens'] + batch)
+            except BaseException as e:
+                rcode = e
+            finally:
+                util._write_stream = old_stream
+                util.set_verbosity(old_verb)
+            got = buf.getvalue()
+            res.evaluations += 1
+            res.count('listtokens_cli_files', len(batch))
+            want_parts = []
+            if kind == 'png' and got == expected_listtokens(srcs[lo] + b'\n', reflex.lex(srcs[lo] + b'\n')):
+                continue            # one supplied final newline (see above)
+            for pth, src in zip(batch, srcs[lo:lo + bsize]):
+                head = '=== {} ===\n'.format(pth) if len(batch) > 1 else ''
+                want_parts.append(head + expected_listtokens(src, reflex.lex(src)))
+            if rcode != 0 or got != ''.join(want_parts):
+                # name the first file whose listing differs
+                pos = 0
+                bad = None
+                for k, wp in enumerate(want_parts):
+                    if got[pos:pos + len(wp)] != wp:
+                        bad = k
+                        break
+                    pos += len(wp)
+                k = bad if bad is not None else 0
+                src = srcs[lo + k]
+                wp = want_parts[k]
+                gp = got[pos:pos + len(wp) + 40]
+                j = next((x for x in range(min(len(wp), len(gp))) if wp[x] != gp[x]), min(len(wp), len(gp)))
+                res.violation('C07|listtokens|%s|%s' % (kind, 'returncode' if rcode != 0 else 'listing'),
+                              '`p8tool listtokens` on a %s cart holding %r: %s' % (
+                                  ext, src, ('returned %r' % (rcode,)) if rcode != 0 else
+                                  'prints ...%r, the token list is ...%r' % (gp[max(0, j - 20):j + 30], wp[max(0, j - 20):j + 30])),
+                              {'src': src, 'via': kind + '-listtokens'})
+    finally:
+        import shutil
+        shutil.rmtree(d, ignore_errors=True)
+
+
 NUMBER_PARTS = 16
 
 
@@ -357,6 +550,7 @@ def shards(tier, seed):
         items += [('triples', i) for i in range(nr)]
     items += [('kw',), ('multi',), ('esc',)]
     items += [('numbers', tier, k) for k in range(NUMBER_PARTS)]
+    items += [('cart', kind, tier, k) for kind in ('p8', 'png') for k in range(CART_PARTS)]
     return items
 
 
@@ -391,6 +585,10 @@ def run_shard(item):
         for s in escapes_forms():
             compare(s, res, 'esc')
         res.sample({'src': escapes_forms()[40]})
+    elif kind == 'cart':
+        check_cart_paths(item[1], item[2], item[3], res)
+        if item[3] == 0:
+            res.sample({'family': 'cart-' + item[1], 'paths': ['file.from_file(...).lua.tokens', 'p8tool listtokens <files>']})
     elif kind == 'numbers':
         lits = number_literals(item[1])[item[2]::NUMBER_PARTS]
         for lit in lits:
@@ -403,8 +601,47 @@ def run_shard(item):
 
 def replay(case):
     res = ShardResult()
+    if case.get('via'):
+        return replay_via(case)
     for fam in ('chars', 'pairs', 'triples', 'kw', 'multi', 'esc', 'numbers'):
         r = ShardResult()
         compare(case['src'], r, fam)
         res.merge(r)
     return [(s, v[0]) for s, v in res.violations.items()]
+
+
+def replay_via(case):
+    import io
+    import os
+    import shutil
+    import tempfile
+    from pico8 import tool, util
+    from pico8.game import file as p8file
+    res = ShardResult()
+    src = case['src']
+    kind = case['via'].split('-')[0]
+    d = tempfile.mkdtemp(prefix='c07cart_')
+    try:
+        pth = os.path.join(d, 'c00000' + ('.p8' if kind == 'p8' else '.p8.png'))
+        (write_p8 if kind == 'p8' else write_png)(pth, src)
+        if case['via'].endswith('-file'):
+            compare(src, res, 'cart', via=(case['via'], lambda s_: p8file.from_file(pth).lua.tokens))
+        else:
+            buf = io.StringIO()
+            old_stream, old_verb = util._write_stream, util._verbosity
+            util._write_stream = buf
+            util.set_verbosity(util.VERBOSITY_NORMAL)
+            try:
+                rcode = tool.main(['listtokens', pth])
+            except BaseException as e:
+                rcode = e
+            finally:
+                util._write_stream = old_stream
+                util.set_verbosity(old_verb)
+            want = expected_listtokens(src, reflex.lex(src))
+            if rcode != 0 or buf.getvalue() != want:
+                res.violation('C07|listtokens|%s|%s' % (kind, 'returncode' if rcode != 0 else 'listing'),
+                              '`p8tool listtokens` on a cart holding %r prints %r, the token list is %r' % (src, buf.getvalue()[:200], want[:200]), case)
+    finally:
+        shutil.rmtree(d, ignore_errors=True)
+    return [(s_, v[0]) for s_, v in res.violations.items()]
